@@ -29,9 +29,16 @@ func vhNewState(ctx *Context, kind int, name string, store Storage) State {
 }
 
 // vhNewEnv builds a fresh location of the given state kind over a fresh MemStorage.
+// vhNoise: let a stressed native replay perturb the schedule at every log record (the
+// engine's Log is a stub, so this has no effect there).
+func vhNoise(ctx *Context) {
+	ctx.LogHook = func(level LogLevel, args ...interface{}) { vjitter() }
+}
+
 func vhNewEnv(kind int) *vhEnv {
 	vsetNow(vhNow)
 	ctx := NewContext("verif")
+	vhNoise(ctx)
 	store, err := NewMemStorage(ctx)
 	vassume(err == nil)
 	return vhOpenEnv(kind, ctx, store, "here")
